@@ -508,6 +508,10 @@ func runBatch(mode string, cfg Config, strat vsched.Strategy) *RunRec {
 	}
 	os.Setenv("GOTMPDIR", gotmp)
 	os.Setenv("VERIF_CANARY", "host-secret")
+	// host variables named like the documented pass-through ones, but not them
+	os.Setenv("GORACE_REPORT_DIR", "/host/only")
+	os.Setenv("GOCOVERDIR_SAVED", "/host/only/too")
+	os.Setenv("XGORACE", "host")
 	os.Setenv("GOCOVERDIR", filepath.Join(base, "cov")) // documented pass-through variables
 	os.Setenv("GORACE", "atexit_sleep_ms=7")
 	// read-only things of the host that scripts may link to (line kind linkout)
